@@ -8,7 +8,13 @@
 (* The reader of module IdbFile is re-used unchanged for every file; its   *)
 (* per-file version state fmaj/fmin is the explicit variable that every    *)
 (* header step overwrites.  `queue` holds the files still to come, `past`  *)
-(* what has been merged; NextFile hands the next file to the reader.       *)
+(* what has been read; NextFile hands the next file to the reader.         *)
+(* MIXED histories add files that must be rejected or flagged (truncated,  *)
+(* newer major, newer minor, identifier mismatch) before, between and      *)
+(* after good ones: the error flag, once raised, stays raised -- the C     *)
+(* interface documents interrogate_error_flag() as "set true if there was  *)
+(* some problem importing the database" and offers nothing to reset it --  *)
+(* and a good file after a bad one is still merged completely.             *)
 (***************************************************************************)
 EXTENDS IdbFile
 
@@ -16,8 +22,11 @@ CONSTANTS HistStrs,      \* which adversarial strings (slot A) the history datab
           HistPre,       \* subset of {"none", "base"}
           HistLens       \* subset of {2, 3}: number of files of a history
 
-VARIABLES queue,   \* Seq([db, minor]) files not yet read
-          past     \* Seq([db, minor, first]) files merged so far
+VARIABLES queue,   \* Seq([db, minor, kind]) files not yet read
+          past     \* Seq([db, minor, first, kind, merged]) files read so far
+
+BadKinds == {"cut", "major4", "minor4", "idmismatch"}
+FileKinds == {"ok"} \cup BadKinds
 
 hvars == <<vars, queue, past>>
 
@@ -32,38 +41,60 @@ HistDb(n) ==
        [] n = 3 -> [EmptyDb EXCEPT !.f = <<F(1, 1)>>, !.e = <<E(1, 2), E(3, 4)>>, !.m = <<M(2, 3)>>]
 HistDbs == 1..3
 
+HistHdr(f) ==
+  [NoHdr EXCEPT !.kind = f.kind,
+                !.major = IF f.kind = "major4" THEN 4 ELSE CurrentMajor,
+                !.minor = IF f.kind = "minor4" THEN 4 ELSE f.minor,
+                !.defid = IF f.kind = "idmismatch" THEN FileId + 1 ELSE 0]
+HistStream(f) ==
+  LET h == HistHdr(f)
+      file == WriteDbAs(f.db, h.major, h.minor)
+  IN IF f.kind = "cut" THEN SubSeq(file, 1, Len(file) \div 2) ELSE file
+
 StartFile(f) ==
   /\ db' = f.db
-  /\ hdr' = [NoHdr EXCEPT !.major = CurrentMajor, !.minor = f.minor]
-  /\ cut' = -1 /\ stream' = WriteDb(f.db, f.minor)
+  /\ hdr' = HistHdr(f)
+  /\ cut' = -1 /\ stream' = HistStream(f)
   /\ pc' = "header" /\ sec' = 0 /\ left' = 0 /\ st' = StartPos
   /\ temp' = EmptyTemp
 
+File(d, m, k) == [db |-> HistDb(d), minor |-> m, kind |-> k]
+Begin(files) ==
+  /\ queue = Tail(files)
+  /\ db = files[1].db /\ hdr = HistHdr(files[1]) /\ stream = HistStream(files[1])
+
 HInit ==
   /\ par \in [a : HistStrs, pre : HistPre, layout : {"gaps"}]
-  /\ \E n \in HistLens : \E ms \in [1..n -> 0..3], ds \in [1..n -> HistDbs] :
-       /\ \E i, j \in 1..n : ms[i] # ms[j]                     \* at least two different formats
-       /\ n = 3 => ds = <<1, 2, 3>>                            \* (three files: one choice of contents)
-       /\ queue = [i \in 1..(n - 1) |-> [db |-> HistDb(ds[i + 1]), minor |-> ms[i + 1]]]
-       /\ db = HistDb(ds[1])
-       /\ hdr = [NoHdr EXCEPT !.major = CurrentMajor, !.minor = ms[1]]
-       /\ stream = WriteDb(HistDb(ds[1]), ms[1])
+  /\ \E n \in HistLens :
+       \* (a) good files of different formats
+       \/ \E ms \in [1..n -> 0..3], ds \in [1..n -> HistDbs] :
+            /\ \E i, j \in 1..n : ms[i] # ms[j]                     \* at least two different formats
+            /\ n = 3 => ds = <<1, 2, 3>>                            \* (three files: one choice of contents)
+            /\ Begin([i \in 1..n |-> File(ds[i], ms[i], "ok")])
+       \* (b) good and bad files mixed, in every order
+       \/ \E ks \in [1..n -> FileKinds] :
+            /\ \E i, j \in 1..n : ks[i] = "ok" /\ ks[j] # "ok"
+            /\ Begin([i \in 1..n |-> File(i, 3, ks[i])])
   /\ past = <<>> /\ cut = -1
   /\ pc = "header" /\ sec = 0 /\ left = 0 /\ st = StartPos
   /\ fmaj = (IF par.pre = "base" THEN 3 ELSE 0) /\ fmin = (IF par.pre = "base" THEN 3 ELSE 0)
   /\ temp = EmptyTemp /\ glob = BaseGlob(par.pre) /\ err = FALSE
 
-FirstOfCurrent == IF past = <<>> THEN BaseGlob(par.pre).next
-                  ELSE past[Len(past)].first + NumRecs(past[Len(past)].db)
+Merged(ps) == SelectSeq(ps, LAMBDA p : p.merged)
+FirstOfCurrent == LET ms == Merged(past) IN
+                  IF ms = <<>> THEN BaseGlob(par.pre).next ELSE ms[Len(ms)].first + NumRecs(ms[Len(ms)].db)
 
 HRead == ReadNext /\ UNCHANGED <<queue, past>>
 
-\* the next interrogate_request_database + load_latest in the same process
+\* the file just read, as an entry of `past` (every history database has records, so "merged" shows in the tables)
+Current(m) == [db |-> db, minor |-> hdr.minor, first |-> FirstOfCurrent, kind |-> hdr.kind, merged |-> m]
+
+\* the next interrogate_request_database + load_latest in the same process; the error flag is never lowered
 NextFile ==
-  /\ pc = "done" /\ ~err /\ queue # <<>>
+  /\ pc = "done" /\ queue # <<>>
   /\ StartFile(Head(queue))
   /\ queue' = Tail(queue)
-  /\ past' = Append(past, [db |-> db, minor |-> hdr.minor, first |-> FirstOfCurrent])
+  /\ past' = Append(past, Current(glob.next # FirstOfCurrent))
   /\ UNCHANGED <<par, fmaj, fmin, glob, err>>                  \* the statics keep the previous file's version
 
 HNext == HRead \/ NextFile
@@ -76,20 +107,30 @@ PastTables(ps) ==
   ELSE LET before == PastTables(SubSeq(ps, 1, Len(ps) - 1))
            p == ps[Len(ps)]
            ld == Loaded(p.db, p.minor, p.first)
-       IN [k \in DOMAIN before |-> before[k] \o ld[k]]
-WithCurrent == PastTables(Append(past, [db |-> db, minor |-> hdr.minor, first |-> FirstOfCurrent]))
+       IN IF p.merged THEN [k \in DOMAIN before |-> before[k] \o ld[k]] ELSE before
+WithCurrent == PastTables(Append(past, Current(TRUE)))
+MustMerge == hdr.kind \in {"ok", "idmismatch"}
 
-\* every file of the history is read with ITS OWN format and merged completely
-HistLoaded == pc = "done" => ~err /\ Tables(glob) = WithCurrent
+\* every good file of the history is read with ITS OWN format and merged completely, whatever came before;
+\* a rejected file leaves nothing
+HistLoaded == pc = "done" => Tables(glob) = IF MustMerge THEN WithCurrent ELSE PastTables(past)
 \* ... and at every step the global database holds whole files only
-HistNeverHalf == Tables(glob) = PastTables(past) \/ Tables(glob) = WithCurrent
+HistNeverHalf == Tables(glob) = PastTables(past) \/ (MustMerge /\ Tables(glob) = WithCurrent)
+\* the error flag says whether ANY file so far was rejected or out of sync: raised by each kind, never lowered
+HistFlagExact == pc = "done" => (err <=> (hdr.kind \in BadKinds \/ \E i \in 1..Len(past) : past[i].kind \in BadKinds))
+FlagNeverLowered == [][err => err']_hvars
 \* the version state the element reader consults is the one of the file being read
 VersionFollowsHeader == pc \notin {"header", "done"} => fmaj = hdr.major /\ fmin = hdr.minor
 HistReadInverts == pc = "remap" => Tables(temp) = Tables(ForceFlags(Defaults(db, hdr.minor)))
 
 \* [first, next, lib, mod] of every loaded file
 HistDefs ==
-  LET all == Append(past, [db |-> db, minor |-> hdr.minor, first |-> FirstOfCurrent])
+  LET all == Merged(Append(past, Current(pc = "done" /\ glob.next # FirstOfCurrent)))
   IN [i \in 1..Len(all) |-> [first |-> all[i].first, next |-> all[i].first + NumRecs(all[i].db),
                              lib |-> all[i].db.lib, mod |-> all[i].db.mod]]
+\* the error flag the interface must show after each file of the history
+RECURSIVE FlagsAfter(_)
+FlagsAfter(ks) == IF ks = <<>> THEN <<>>
+                  ELSE LET b == FlagsAfter(SubSeq(ks, 1, Len(ks) - 1))
+                       IN Append(b, ks[Len(ks)] \in BadKinds \/ (b # <<>> /\ b[Len(b)]))
 =============================================================================
